@@ -1,3 +1,4 @@
 import TinyFlux.Audit.Tool
 import TinyFlux.Props.C15
+import TinyFlux.Props.C15EndToEnd
 #audit TinyFlux.Props.C15
